@@ -12,7 +12,7 @@ verus! {
 
 pub enum GitAiError { Generic(String) }
 /// stand-ins never inspected by the verified text
-pub struct AttributionTracker { pub _opaque: () }
+#[verifier::external_body] pub struct AttributionTracker { _o: () }
 #[verifier::external_body] pub struct VirtualAttributions { _o: () }
 /// rule O1 on the path `crate::authorship::virtual_attribution::VirtualAttributions`
 pub type VaT = VirtualAttributions;
